@@ -138,6 +138,13 @@ func renderListing(funcs []function, i386 bool, table map[int]string, r *rand.Ra
 				case "orphan":
 					line(fi, trap())
 					found = false
+				case "dangling":
+					if r.Intn(2) == 0 {
+						line(fi, fmt.Sprintf("%s %s, AX", mov(), num(v.Num)))
+					} else {
+						line(fi, fmt.Sprintf("%s %s, 0(SP)", mov(), num(v.Num)))
+					}
+					found = false
 				}
 				if _, ok := table[n]; found && ok {
 					exp = append(exp, expected{n, f.Name + fmt.Sprintf(" /src/file%d.go", fi)})
@@ -172,14 +179,32 @@ func genFunctions(r *rand.Rand, nf int, table map[int]string) []function {
 			f.Name = fmt.Sprintf("github.com/x/y.(*T).Method%d(SB)", fi)
 		}
 		nItems := r.Intn(12)
+		if r.Intn(60) == 0 {
+			nItems = 3000 + r.Intn(9000) // a huge function (thousands of lines without marker)
+		}
 		orphanFirst := r.Intn(6) == 0
 		if r.Intn(10) == 0 {
 			f.Header = 1 + r.Intn(2)
 			orphanFirst = r.Intn(2) == 0
 		}
 		for k := 0; k < nItems; k++ {
+			if nItems > 1000 {
+				// a huge function: thousands of lines without marker and without a complete site; only number loads that
+				// nothing consumes
+				if r.Intn(300) == 0 {
+					f.Items = append(f.Items, site{Kind: "dangling", Num: pickNum()})
+				} else {
+					f.Items = append(f.Items, fillers[r.Intn(len(fillers))])
+				}
+				continue
+			}
 			if r.Intn(3) != 0 {
 				f.Items = append(f.Items, fillers[r.Intn(len(fillers))])
+				continue
+			}
+			if r.Intn(8) == 0 {
+				// a number load that no trap of this function consumes: it must never be picked up by a later function
+				f.Items = append(f.Items, site{Kind: "dangling", Num: pickNum()})
 				continue
 			}
 			s := site{Num: pickNum(), Gap: r.Intn(5)}
